@@ -271,8 +271,9 @@ def stuck_violations(res, translators):
             seen[key]["also"].append("%s %s" % (cfg, shape))
             continue
         seen[key] = {"function": fn, "config": cfg, "public_shape": shape, "reason": why, "also": [],
-                     "how_to_replay": "VERIF_REPO=%s python3 %s/tools/kern_ct.py --only %s --out /tmp/ct.v   (prints this MISSING line; the symbolic executor stops at the first "
-                                      "branch / address / shift count / length that depends on a data bit)" % (common.REPO, common.VERIF, fn)}
+                     "how_to_replay": "VERIF_REPO=%s python3 %s/tools/%s --only %s --out /tmp/ct.v   (prints this MISSING line; the symbolic executor stops at the first "
+                                      "branch / address / shift count / length that depends on a data bit)" %
+                                      (common.REPO, common.VERIF, "kern_ct_masked.py" if ("_masked_" in fn or "masked_key" in fn or "_max" in cfg) else "kern_ct.py", fn)}
     for fn, r in seen.items():
         res.violation("ct-stuck:" + fn,
                       "symbolic execution of %s [%s, public shape %s] with all data symbolic got stuck: %s - control flow or an address of the current source depends on data"
@@ -308,7 +309,11 @@ def run(res, tier, seed, replay=None):
     # ---- layers 1 and 2: regenerate, prove
     phases = {}
     if not replay:
-        pr = stdflow.prove(res, "C11")
+        # group files Props/Properties_C11_<group>.v (masked AEAD / masked keys / kernels with 16- and 24-byte masked words:
+        # Properties_C11_masked.v over Gen/CtMasked.v) are picked up by glob, compiled with the main file and counted
+        import glob
+        groups = sorted(glob.glob(os.path.join(common.COQ, "Props", "Properties_C11_*.v")))
+        pr = stdflow.prove(res, "C11", extra_targets=["Props/" + os.path.basename(g) + "o" for g in groups])
         phases["regenerate_and_prove_s"] = round(time.time() - t0, 1)
         miss = [v[2].get("missing", "") for v in res.violations if v[0].startswith("translator-missing:")]
         # the per-shape MISSING lines of kern_ct are re-reported below, one finding per function with all its shapes
@@ -330,8 +335,12 @@ def run(res, tier, seed, replay=None):
                 tie_report(res)
             except Exception:
                 pass
-        ct = [l for l in res.cov.get("translators", []) if l.startswith("kern_ct")]
+        ct = [l for l in res.cov.get("translators", []) if l.startswith("kern_ct:")]
         res.cov["layer1_kernels"] = ct[-1] if ct else "?"
+        ctm = [l for l in res.cov.get("translators", []) if l.startswith("kern_ct_masked:")]
+        res.cov["layer1_masked"] = ctm[-1] if ctm else "?"
+        res.cov["theorem_files"] = [{"file": "coq/Props/Properties_C11.v", "checked": bool(pr["targets"].get(common.props_file("C11")))}] + \
+                                   [{"file": "coq/Props/" + os.path.basename(g), "checked": bool(pr["targets"].get("Props/" + os.path.basename(g) + "o"))} for g in groups]
     # ---- layer 3
     if thorough:
         plan = [("default", None), ("c64", None), ("c32", None), ("directxor", None), ("generic", None)]
@@ -404,7 +413,8 @@ def run(res, tier, seed, replay=None):
         "input_distribution": {"families": dict(stats["families"]), "verification_accept": stats["verify_accept"], "verification_reject": stats["verify_reject"],
                                "tainted_output_bytes": stats["tainted_bytes"]},
         "layers": {
-            "1_kernels_and_mode_functions": {"theorems": [n for n in names if "kernel" in n], "table": res.cov.get("layer1_kernels", "")},
+            "1_kernels_and_mode_functions": {"theorems": [n for n in names if "kernel" in n], "table": res.cov.get("layer1_kernels", ""),
+                                             "masked_table": res.cov.get("layer1_masked", "")},
             "1x2_tie": {"theorems": [n for n in names if "matches" in n]},
             "2_leakage_models": {"theorems": [n for n in names if "modes" in n]},
             "3_memcheck": {"configurations": len(per_cfg), "operations": stats["ops"], "errors": total_err},
